@@ -248,6 +248,7 @@ type irInstr struct {
 	arg      string // character operand of chr emissions
 	single   bool   // call to a single-instruction emitter (may be a branch the caller must pin)
 	needPin  bool   // single emitter whose result says it emitted (bool cond true) or void
+	opx      ast.Expr // the opcode expression of an emission
 }
 
 type labelVal struct {
@@ -279,6 +280,7 @@ type irAnalysis struct {
 	single          map[string]bool
 	emitsSave       map[string]bool
 	untaggedCallers map[string]map[string]bool // callee -> callers that call it with no tag emitted before
+	templates       map[string][][]irInstr     // per function: the emitted template of every feasible path
 }
 
 func irFuncs(p *core.Program, d irDialect) map[string]*irFuncInfo {
@@ -562,7 +564,7 @@ func (s *irState) call(call *ast.CallExpr) {
 			return
 		case s.d.emitters[m] && len(call.Args) >= 1:
 			op, br := s.opInfo(call.Args[0])
-			in := irInstr{op: op, branch: br, pos: call.Pos()}
+			in := irInstr{op: op, branch: br, pos: call.Pos(), opx: call.Args[0]}
 			if m == s.d.intName {
 				in.explicit = true
 			}
@@ -1149,6 +1151,10 @@ func analyseIR(p *core.Program, d irDialect, unroll int) *irAnalysis {
 				}
 			}
 			st.finish(end)
+			if an.templates == nil {
+				an.templates = map[string][][]irInstr{}
+			}
+			an.templates[name] = append(an.templates[name], append([]irInstr(nil), st.instrs...))
 			for _, in := range st.instrs {
 				if in.op == d.save {
 					an.emitsSave[name] = true
